@@ -60,6 +60,12 @@ def cell_program(rnd, k):
         cells.append(("slice", t))
     for form in [(T, T), (T, C), (C, T), (L(Z), L(Z)), (L(Z), Z), (Z, L(Z)), (Z, Z), (L(T), T), (T, L(T)), (L(T), L(T)), (C, C), (K, K), (W, W)]:
         cells.append(("concat",) + form)
+    # equality of Kommazahlen inside lists is equality of values: 0,0 and -0,0 are equal although their bytes differ
+    nz = Un("neg", Lit(K, 0.0), K)
+    for a, b in [([nz, Lit(K, 1.5)], [Lit(K, 0.0), Lit(K, 1.5)]), ([Lit(K, 2.0), nz], [Lit(K, 2.0), Lit(K, 0.0)]), ([nz], [nz]), ([nz, Lit(K, 1.0)], [Lit(K, 0.0), Lit(K, 2.0)])]:
+        op = rnd.choice(["gleich", "ungleich"])
+        if g.try_top(g.observe(Bin(op, ListLit(L(K), a), ListLit(L(K), b), W))):
+            g.cells.add(("bin", op, "L<K> with negative zero"))
     rnd.shuffle(cells)
     n = 0
     for cell in cells * 2:
